@@ -331,7 +331,7 @@ pub fn main(args: &Args) -> Report {
         rep.out = out;
         return rep;
     }
-    let n = if args.thorough() { 8000 } else { 1000 };
+    let n = if args.thorough() { 50_000 } else { 1000 };
     let deadline = Instant::now() + Duration::from_secs(args.budget_s(120, 1200));
     let seed = args.seed;
     let (out, done) = par_cases(n, threads(), Some(deadline), |k| {
